@@ -182,6 +182,15 @@ def handle (args : List String) (impl : List String) : String :=
   match args with
   | "conv" :: toks => handleConv toks impl
   | "shift" :: toks => handleShift toks impl
+  | "pred" :: _ =>
+    -- gonum's spline predictors are not modelled: the harness compares `PredictOBD` with a predictor
+    -- of the same type fitted per channel (oracle on the implementation side); the verdict is relayed
+    match impl with
+    | "ok" :: n :: _ => s!"OK nt={b01 (n != "n=0")}"
+    | "skip" :: why :: _ => s!"SKIP reason={why}"
+    | "diff" :: rest => "VIOL clause=cv.predictor_value " ++ String.intercalate " " rest
+    | ["panic"] => "VIOL clause=cv.no_crash"
+    | _ => "BAD"
   | _ => "BAD"
 
 end TrackVerif.Conv.Driver
